@@ -240,6 +240,22 @@ pub fn check_image(img: &SimFs, cfg: &Cfg, acked: &Map, inflight: Option<&Vec<(V
             return out;
         }
     };
+    // C11 after a crash: once the freshly opened database is quiescent and BEFORE anybody reads from
+    // it (a reader pins a version and the files it releases linger - the recorded finding), the
+    // directory holds exactly what the current version, the WAL and the manifest need: tables
+    // orphaned by the interrupted flush / compaction, temp files of an interrupted CURRENT switch and
+    // old manifests must be gone
+    {
+        db2.verif_wait_idle(std::time::Duration::from_secs(20));
+        let st = db2.verif_state();
+        let mut obs = vec![];
+        crate::dbsim::check_files(img, &st, true, &mut obs, 0);
+        if let Some(o) = obs.first() {
+            out.sig = Some((o.sig.clone(), format!("after crash recovery, further writes, a clean close and a reopen (nobody has read from the database yet): {}", o.what)));
+            let _ = std::panic::catch_unwind(std::panic::AssertUnwindSafe(move || drop(db2)));
+            return out;
+        }
+    }
     let mut keys2: Vec<Vec<u8>> = all_keys.to_vec();
     keys2.extend(after.keys().cloned());
     match read_all(&db2, &keys2) {
